@@ -23,6 +23,9 @@ pub enum Dissent {
     AddAliasEntry,
     /// the digest value cut to its first half (still hexadecimal)
     TruncateDigest,
+    /// one entry is reported under the other heading: the first product as a material, or the last material as a
+    /// product (both maps differ, their concatenation in path order may not)
+    MoveAcrossSides,
 }
 
 #[derive(Clone, Debug, Serialize, Deserialize)]
@@ -147,6 +150,10 @@ fn dissenting(a: &Artifacts, d: &Dissent, entry: u8) -> Artifacts {
             let cur = a[&k].get("sha256").cloned().unwrap_or_default();
             out.insert(alias, [("sha256".to_string(), fresh_digest(&cur))].into());
         }
+        // (two maps involved: applied by the caller on plain links; inside delegations it degrades to a removal)
+        Dissent::MoveAcrossSides => {
+            out.remove(&k);
+        }
         Dissent::TruncateDigest => {
             let m = out.get_mut(&k).unwrap();
             let (alg, val) = m.iter().next().map(|(a, v)| (a.clone(), v.clone())).unwrap();
@@ -164,7 +171,7 @@ impl Property for C07 {
     fn rule() -> String {
         "Generated: valid worlds in which one step is made multi-party (threshold t in 2..4, k in t..4 authorised, validly signed links \
          with identical materials and products), then exactly one link (or, when two functionaries delegated the step, the inner evidence of one functionary's own copy) is edited and re-signed by its own key: one path renamed, one digest \
-         changed, one algorithm changed or added/removed, one entry added or removed, one further entry that spells an existing path differently (./p, x/../p, doubled slash, p/.) with another digest, or one digest value cut to its first half - in materials or in products; the dissenter's position \
+         changed, one algorithm changed or added/removed, one entry added or removed, one further entry that spells an existing path differently (./p, x/../p, doubled slash, p/.) with another digest, or one digest value cut to its first half - in materials or in products; or one entry reported under the other heading (first product as a material, last material as a product); the dissenter's position \
          in key-id order is varied (first/middle/last). Oracle: Ok only if all counted links of every step with threshold >= 2 have equal \
          materials and equal products. In a fifth of the cases the dissenting link is signed under the second key id of one key (Ed25519 raw/PKCS#8 import, RSA under its other PSS scheme) that the step also authorises, while the link under the first id agrees. The dissenting world is written over the agreeing one in the same link directory after the agreeing one was verified there once (same paths, one fixed modification time; ChangeDigest/RenamePath keep the file size). Non-trivial: the dissent is real (maps differ) and the control without dissent verifies Ok; distinct \
          by (t, k, edit kind, side, position, layout shape)."
@@ -184,7 +191,7 @@ impl Property for C07 {
             any::<u8>(),
             prop_oneof![Just(0u8), Just(128u8), Just(255u8), any::<u8>()],
             any::<bool>(),
-            prop_oneof![Just(Dissent::RenamePath), Just(Dissent::ChangeDigest), Just(Dissent::ChangeAlgorithm), Just(Dissent::AddAlgorithm), Just(Dissent::AddEntry), Just(Dissent::RemoveEntry), Just(Dissent::AddAliasEntry), Just(Dissent::TruncateDigest)],
+            prop_oneof![Just(Dissent::RenamePath), Just(Dissent::ChangeDigest), Just(Dissent::ChangeAlgorithm), Just(Dissent::AddAlgorithm), Just(Dissent::AddEntry), Just(Dissent::RemoveEntry), Just(Dissent::AddAliasEntry), Just(Dissent::TruncateDigest), Just(Dissent::MoveAcrossSides)],
             any::<u8>(),
             prop_oneof![4 => Just(false), 1 => Just(true)],
         )
@@ -209,6 +216,23 @@ impl Property for C07 {
         let target = idxs[pos.min(idxs.len() - 1)];
         let mut real = false;
         match &mut w.links[target].body {
+            Body::Link { link, .. } if matches!(spec.dissent, Dissent::MoveAcrossSides) => {
+                if spec.products_side {
+                    if let Some((k, v)) = link.products.iter().next().map(|(k, v)| (k.clone(), v.clone())) {
+                        if !link.materials.contains_key(&k) {
+                            link.products.remove(&k);
+                            link.materials.insert(k, v);
+                            real = true;
+                        }
+                    }
+                } else if let Some((k, v)) = link.materials.iter().next_back().map(|(k, v)| (k.clone(), v.clone())) {
+                    if !link.products.contains_key(&k) {
+                        link.materials.remove(&k);
+                        link.products.insert(k, v);
+                        real = true;
+                    }
+                }
+            }
             Body::Link { link, .. } => {
                 let side = if spec.products_side { &mut link.products } else { &mut link.materials };
                 let changed = dissenting(side, &spec.dissent, spec.entry);
